@@ -207,6 +207,101 @@ func runWinner(kind string, n, round int) {
 	finish(id, "one-winner", fmt.Sprintf("W/%s/%d/overlap=%v", kind, n, ov > 0), ov > 0, int64(n+3), r, map[string]any{"kinds": kinds, "overlapping_pairs": ov, "winners": len(winners), "losers": len(losers)})
 }
 
+// one process, n different names claimed for it at the same moment (lined up at the yield point
+// inside RegisterName). Whatever the process was granted: while it lives every granted name
+// reaches it, and once it has terminated every granted name is gone and claimable again.
+func runOneProcessManyNames(n, round int, withSelf bool, cause string) {
+	id := fmt.Sprintf("W1/%d/self=%v/%s/%d", n, withSelf, cause, round)
+	if !hk.Want(id) {
+		return
+	}
+	beginCase()
+	r := &result{}
+	before := snapshot()
+	h, err := spawnProc(id)
+	if err != nil {
+		r.inconclusive("spawn: %v", err)
+		finish(id, "one-winner", id, false, 0, r, nil)
+		return
+	}
+	names := make([]gen.Atom, n)
+	for i := range names {
+		names[i] = uniq("c06multi")
+	}
+	var arrived atomic.Int32
+	cancel := hk.Observe("node.regname.alive", hk.Eq(h.pid), func(string, any) {
+		arrived.Add(1)
+		deadline := time.Now().Add(3 * time.Millisecond)
+		for i := 0; int(arrived.Load()) < n; i++ {
+			if i%256 == 255 && time.Now().After(deadline) {
+				return
+			}
+		}
+	})
+	res := make([]claimRes, n)
+	start := make(chan struct{})
+	var wg sync.WaitGroup
+	for i := 0; i < n; i++ {
+		wg.Add(1)
+		go func(i int) {
+			defer wg.Done()
+			<-start
+			kind := "node"
+			if withSelf && i == 0 {
+				kind = "self" // the process claims a name itself while others claim for it
+			}
+			res[i] = claimOnce(kind, names[i], h, "")
+		}(i)
+	}
+	close(start)
+	wg.Wait()
+	cancel()
+	opsObserved.Add(int64(n))
+	var granted []gen.Atom
+	for i, c := range res {
+		switch {
+		case !c.ran:
+			r.inconclusive("claimer %d did not run", i)
+		case c.err == nil:
+			granted = append(granted, names[i])
+		case c.err != gen.ErrTaken:
+			r.fail("claim-unexpected-error", "RegisterName(%q) for live %s got %v, want nil or ErrTaken", names[i], h.pid, c.err)
+		}
+	}
+	if len(granted) == 0 && r.incon == "" {
+		r.fail("no-claimer-wins", "none of %d concurrent RegisterName calls with different free names for the unnamed live process %s succeeded", n, h.pid)
+	}
+	// while alive: every granted name reaches the process
+	for _, nm := range granted {
+		if ok, serr, inc := resolvesTo(nm, h); inc {
+			r.inconclusive("watchdog: ping to name not delivered")
+		} else if !ok {
+			r.fail("name-misresolves", "name %q granted to live %s does not reach it (send error %v)", nm, h.pid, serr)
+		}
+	}
+	terminate(h, cause, r)
+	if r.incon == "" {
+		for _, nm := range granted {
+			opsObserved.Add(2)
+			serr := node.Send(nm, ping{})
+			c, _ := spawnProc(id + "/reclaimer")
+			cerr := node.RegisterName(nm, c.pid)
+			if serr != gen.ErrProcessUnknown || cerr != nil {
+				r.fail("granted-name-survives-termination", "%s was granted %d names %v by concurrent RegisterName calls; after it terminated (%s) name %q is still registered: send %v (want ErrProcessUnknown), RegisterName for a fresh process %v (want nil)", h.pid, len(granted), granted, cause, nm, serr, cerr)
+			}
+			node.Kill(c.pid)
+			if !waitDead(c) {
+				r.inconclusive("watchdog: reclaimer did not terminate")
+			}
+		}
+		if after := snapshot(); after != before && len(r.viol) == 0 {
+			r.fail("counter-leak", "node counters after the case %+v differ from before %+v (processes, names, aliases, events)", after, before)
+		}
+	}
+	ov := overlapping(res)
+	finish(id, "one-winner", fmt.Sprintf("W1/%d/self=%v/%s/overlap=%v", n, withSelf, cause, ov > 0), ov > 0, int64(n+2*len(granted)+2), r, map[string]any{"names": names, "granted": granted, "overlapping_pairs": ov})
+}
+
 // the same for event names
 func runEventWinner(n, round int, withNode bool) {
 	id := fmt.Sprintf("WE/%d/node=%v/%d", n, withNode, round)
@@ -845,6 +940,11 @@ func runDirected() {
 	for _, n := range []int{2, 4} {
 		for k := 0; k < rounds; k++ {
 			runEventWinner(n, k, k%2 == 0)
+		}
+	}
+	for _, n := range []int{2, 3, 6} {
+		for k := 0; k < rounds; k++ {
+			runOneProcessManyNames(n, k, k%3 == 0, []string{"kill-sleeping", "normal", "exit-signal", "kill-running"}[k%4])
 		}
 	}
 }
